@@ -328,6 +328,7 @@ pub fn eval_case(case: &Case, mode: &Mode, acc: &Acc) -> Vec<Violation> {
         acc.distinct_n(n_sent + n_non);
         acc.count("grammars_with_sentences_and_non_sentences", 1);
     }
+    acc.fallback(|| json!({"grammar": g.short(), "K": case.k, "inputs": inputs.len()}));
     if acc.want_sample() && n_sent > 2 {
         acc.sample(json!({"grammar": g.short(), "K": case.k, "max_k_found": gen_.max_k, "inputs": inputs.len(), "sentence_runs": n_sent, "non_sentence_runs": n_non}));
     }
